@@ -305,6 +305,8 @@ def retriage(a):
     for m in results:
         if m["outcome"] != "MISSED" or "others" in m:
             continue
+        if a.survivors_only and "failed" in m.get("suite", ""):
+            continue
         tmp = tempfile.mkdtemp(prefix="coxauto_")
         try:
             shutil.copytree(os.path.join(REPO, "coxeter"), os.path.join(tmp, "coxeter"))
@@ -332,6 +334,7 @@ def main():
     ap.add_argument("--limit", type=int, default=None)
     ap.add_argument("--no-suite", action="store_true")
     ap.add_argument("--retriage", action="store_true", help="run every other check on the mutants no anchored check reported")
+    ap.add_argument("--survivors-only", action="store_true", help="retriage only mutants the repository's tests pass")
     ap.add_argument("--out", default=os.path.join(HERE, "tools", "mutants", "auto_results.json"))
     a = ap.parse_args()
     rng = random.Random(a.seed)
